@@ -36,7 +36,10 @@ def ofObj (X : Obj ℚ) : Json :=
 def opApply (j : Json) : R Json := do
   let X ← objOf j
   let A ← ndf j "A"
-  match X.apply A (← modeOf (← strf j "mode")) with
+  let AinvT ← match j.getObjVal? "AinvT" with
+    | .ok v => ndOf v
+    | .error _ => pure A          -- only read when the object carries dual data
+  match X.apply A AinvT (← modeOf (← strf j "mode")) with
   | .ok Y => return ofObj Y
   | .error e => throw e
 
